@@ -124,6 +124,7 @@ type unit struct {
 	byteTok bool     // []byte values are tokens: the bytes live in the outside world
 	extLits bool     // composite literals of types outside the translation are built by the outside world ("new:<Type>{keys}")
 	nilZero bool     // `return nil, err` where a *T of a translated struct T is expected: the zero record (callers test the error)
+	outside bool     // see outside.go: package-level variables, byte buffers, literals of foreign types, endless loops
 }
 
 type world struct {
@@ -133,6 +134,8 @@ type world struct {
 	ok      map[string]bool // successfully translated definitions (Coq names)
 	cur     *unit
 	sigs    map[string]sig
+	globals map[string]bool // outside units: package-level variables of the unit's files
+	pkgs    map[string]bool // outside units: names of imported packages
 }
 
 type sig struct {
@@ -310,6 +313,13 @@ type fnTr struct {
 
 	// loops made from `range X.Pix`: Go evaluates the range expression once, whatever the body does
 	once map[*ast.ForStmt]bool
+
+	// outside.go
+	fuel         bool     // the function contains an endless loop: it takes fuel and yields an option
+	inEndless    bool     // loops[0] is the endless loop
+	endlessEntry int      // length of the environment at its entry
+	extra        []string // definitions emitted before the function's own (bodies of endless loops)
+	coqName      string
 }
 
 func (f *fnTr) fresh(base string) string {
@@ -447,6 +457,9 @@ func (f *fnTr) pure(e ast.Expr, en env) bool {
 					p = false
 				}
 			}
+			if f.outsideName(x, en) {
+				p = false
+			}
 		case *ast.BasicLit:
 			if x.Kind == token.FLOAT || (x.Kind == token.STRING && f.u.strTok) {
 				p = false
@@ -454,6 +467,9 @@ func (f *fnTr) pure(e ast.Expr, en env) bool {
 		case *ast.Ident:
 			if b, ok := en.lookup(x.Name); ok && b.t.k == kFloat {
 				p = false // operations on floats leave the translated code
+			}
+			if f.outsideName(x, en) {
+				p = false
 			}
 		}
 		return p
@@ -472,6 +488,9 @@ func (f *fnTr) isOpaque(e ast.Expr, en env) bool {
 		}
 		return false
 	case *ast.SelectorExpr:
+		if f.outsideName(x, en) {
+			return false
+		}
 		_, t, ok := f.fieldPath(x, en)
 		return !ok || t.k == kUnknown
 	case *ast.ParenExpr:
@@ -548,6 +567,9 @@ func (f *fnTr) expr(e ast.Expr, en env, k func(val, env) string) string {
 			}
 			return k(val{b.coq, b.t}, en)
 		}
+		if f.outsideName(x, en) {
+			return f.outsideRead(x, en, k)
+		}
 		if c, ok := f.w.consts[x.Name]; ok {
 			if v, ok := eval(c, f.w.consts); ok {
 				return k(val{fmt.Sprintf("(%d)", v), ty{k: kInt}}, en)
@@ -570,6 +592,9 @@ func (f *fnTr) expr(e ast.Expr, en env, k func(val, env) string) string {
 		}
 		if exprString(x) == "math.MaxFloat32" {
 			return k(val{"0", ty{k: kNil, lit: "math.MaxFloat32"}}, en)
+		}
+		if f.outsideName(x, en) {
+			return f.outsideRead(x, en, k)
 		}
 		// a field of something outside the translation (a configuration struct passed as a
 		// parameter): its value is asked of the outside world
@@ -625,6 +650,9 @@ func (f *fnTr) expr(e ast.Expr, en env, k func(val, env) string) string {
 			fail("3-index slice")
 		}
 		return f.expr(x.X, en, func(l val, en env) string {
+			if l.t.k == kTok && f.u.outside {
+				return f.sliceTok(x, l, en, k)
+			}
 			if l.t.k != kHList {
 				fail("slicing something that is not a frame slice: %s", exprString(x))
 			}
@@ -805,7 +833,7 @@ func (f *fnTr) resolveCall(c *ast.CallExpr, en env) (sig, ast.Expr, bool) {
 		if _, shadow := en.lookup(fn.Name); shadow {
 			return sig{}, nil, false
 		}
-		if s, ok := f.w.sigs[fn.Name]; ok && s.recv == "" {
+		if s, ok := f.w.sigs[fn.Name]; ok && s.recv == "" && f.visibleUnit(s.unit) {
 			return s, nil, true
 		}
 	case *ast.SelectorExpr:
@@ -956,6 +984,9 @@ func (f *fnTr) call(c *ast.CallExpr, en env, k func(val, env) string) string {
 							return k(val{fmt.Sprintf("(repeat (-1) (Z.to_nat %s))", n.code), ty{k: kHList}}, en)
 						})
 					}
+					if t := f.w.goType(c.Args[0]); t.k == kTok && f.u.outside {
+						return f.makeTok(c, en, k)
+					}
 					if ts := exprString(c.Args[0]); ts == "[][]float32" || ts == "[]float32" {
 						return f.expr(c.Args[1], en, func(n val, en env) string {
 							return k(val{n.code, ty{k: kFMat, lit: ts}}, en) // only meaningful as the right side of an assignment to a float matrix
@@ -1017,7 +1048,7 @@ func (f *fnTr) call(c *ast.CallExpr, en env, k func(val, env) string) string {
 				})
 			})
 		}
-		if s := exprString(c.Fun); s == "errors.New" || s == "fmt.Errorf" {
+		if s := exprString(c.Fun); (s == "errors.New" || s == "fmt.Errorf") && !f.u.outside {
 			return k(val{"1", ty{k: kErr}}, en)
 		}
 	}
@@ -1025,6 +1056,9 @@ func (f *fnTr) call(c *ast.CallExpr, en env, k func(val, env) string) string {
 	if s, recvExpr, ok := f.resolveCall(c, en); ok {
 		if !f.w.ok[s.coqName] {
 			fail("call of %s, whose translation failed", s.coqName)
+		}
+		if fuelFns[s.coqName] {
+			fail("call of %s, which contains an endless loop", s.coqName)
 		}
 		callee := s.coqName + " ext"
 		return f.args(c.Args, s.params, en, func(args []string, en env) string {
@@ -1258,6 +1292,9 @@ func (f *fnTr) finishReturn(v string, en env, defers []deferred) string {
 			if len(f.loops) > 0 {
 				return "ret (LRet " + r + ")"
 			}
+			if f.fuel {
+				return "ret (Some " + r + ")"
+			}
 			return "ret " + r
 		}
 		return f.expr(defers[i].call, en, func(_ val, en env) string { return run(i-1, en) })
@@ -1440,7 +1477,14 @@ func (f *fnTr) block(items []item, en env, defers []deferred) string {
 		}
 		return s.name + " (" + strings.Join(args, ", ") + ")"
 	case *ast.ForStmt:
+		if s.Init == nil && s.Cond == nil && s.Post == nil {
+			return f.foreverStmt(s, rest, en, defers)
+		}
 		return f.forStmt(s, rest, en, defers)
+	case *ast.BranchStmt:
+		return f.branchStmt(s, en)
+	case *ast.SwitchStmt:
+		return f.block(append([]item{{s: f.switchAsIf(s, en)}}, rest...), en, defers)
 	case *ast.RangeStmt:
 		// for y, row := range X.Pix
 		if fs, ok := f.rangePix(s, en); ok {
@@ -1492,6 +1536,8 @@ func terminates(l []ast.Stmt) bool {
 	switch x := l[len(l)-1].(type) {
 	case *ast.ReturnStmt:
 		return true
+	case *ast.BranchStmt:
+		return x.Tok == token.CONTINUE && x.Label == nil // leaves the block (only translated inside endless loops)
 	case *ast.BlockStmt:
 		return terminates(x.List)
 	case *ast.IfStmt:
@@ -1615,6 +1661,9 @@ func (f *fnTr) assign(s *ast.AssignStmt, rest []item, en env, defers []deferred)
 		return f.expr(rhs, en, func(v val, en env) string {
 			if id, ok := lhs.(*ast.Ident); ok {
 				_, exists := en.lookup(id.Name)
+				if !exists && s.Tok != token.DEFINE && f.outsideName(id, en) {
+					return f.outsideSet(id, v, rhs, en, func(en env) string { return f.block(rest, en, defers) })
+				}
 				if s.Tok == token.DEFINE || !exists {
 					if s.Tok != token.DEFINE {
 						fail("assignment to undeclared %s", id.Name)
@@ -1724,6 +1773,10 @@ func (f *fnTr) assign(s *ast.AssignStmt, rest []item, en env, defers []deferred)
 			return fmt.Sprintf("let %s := %s in\n%s", root.coq, term, f.block(rest, en, defers))
 		})
 	}
+	// v, ok := x.(T)
+	if ta, ok := s.Rhs[0].(*ast.TypeAssertExpr); ok && len(s.Rhs) == 1 && len(s.Lhs) == 2 && f.u.outside {
+		return f.typeAssert(s, ta, en, func(en env) string { return f.block(rest, en, defers) })
+	}
 	// a, b := g(...)
 	if len(s.Rhs) == 1 && len(s.Lhs) > 1 {
 		return f.expr(s.Rhs[0], en, func(v val, en env) string {
@@ -1748,6 +1801,10 @@ func (f *fnTr) assign(s *ast.AssignStmt, rest []item, en env, defers []deferred)
 						src = t
 					}
 					if id.Name == "_" {
+						continue
+					}
+					if _, exists := en.lookup(id.Name); !exists && s.Tok != token.DEFINE && f.outsideName(id, en) {
+						code += f.outsideSet(id, val{src, ty{k: kExt}}, id, en, func(env) string { return "" })
 						continue
 					}
 					if b, exists := en.lookup(id.Name); exists && (s.Tok != token.DEFINE || f.sameScope(en, id.Name)) {
@@ -1858,6 +1915,9 @@ func (f *fnTr) loopState(en env) string {
 	var parts []string
 	for _, n := range f.loops[len(f.loops)-1] {
 		b, _ := en.lookup(n)
+		if f.inEndless && len(f.loops) == 1 {
+			b, _ = en[:f.endlessEntry].lookup(n) // not a variable of the same name declared inside the body
+		}
 		parts = append(parts, b.coq)
 	}
 	if len(parts) == 0 {
@@ -2121,6 +2181,10 @@ func (w *world) translateFunc(u *unit, fd *ast.FuncDecl, s sig) (code string, er
 		}
 	}()
 	f := &fnTr{w: w, u: u, result: s.result, names: map[token.Pos]string{}, used: map[string]bool{}}
+	f.coqName, f.fuel = s.coqName, u.outside && hasEndlessLoop(fd)
+	if f.fuel {
+		f.used["fuel"], f.used["st"], f.used["r"] = true, true, true
+	}
 	var en env
 	var params []string
 	if fd.Recv != nil && len(fd.Recv.List) == 1 {
@@ -2163,6 +2227,9 @@ func (w *world) translateFunc(u *unit, fd *ast.FuncDecl, s sig) (code string, er
 	if s.recv != "" {
 		rt = "(" + s.recv + " * " + s.result.coq() + ")"
 	}
+	if f.fuel {
+		return f.fuelDefinition(s, params, rt, body), nil
+	}
 	return fmt.Sprintf("Definition %s {W : Type} (ext : string -> list arg -> W -> Z * W) %s : M W %s :=\n%s.\n", s.coqName, strings.Join(params, " "), rt, indent(body)), nil
 }
 
@@ -2198,6 +2265,7 @@ func translateUnits(repo, outdir string, units []*unit) error {
 		}
 		w.consts = unitConsts
 		w.cur = u
+		w.globals, w.pkgs = outsideNames(u, files)
 		// pass 1: struct names (so that field types can refer to each other)
 		decls := map[string]*ast.StructType{}
 		for _, af := range files {
@@ -2428,6 +2496,9 @@ var fnUnits = []*unit{
 	{name: "ThermalRaw", dir: "cmd/thermal-writer", files: []string{"thermalraw.go"}, structs: []string{"Builder"},
 		funcs: []string{"newBuilder", "writeFrame", "newThermalRaw"}, skip: map[string]bool{},
 		opaque: []string{"io.WriteCloser", "*cptv.FieldWriter"}, byteTok: true, nilZero: true},
+	{name: "ConnLoop", dir: "cmd/thermal-recorder", files: []string{"main.go"}, funcs: []string{"handleConn", "frameParser"},
+		skip: map[string]bool{}, opaque: []string{"[]byte", "*CPTVFileRecorder", "func([]byte, *cptvframe.Frame, int) error"},
+		strTok: true, outside: true},
 }
 
 // ---------------------------------------------------------------------------------------
@@ -2606,6 +2677,9 @@ func (f *fnTr) composite(cl *ast.CompositeLit, en env, k func(val, env) string) 
 	t := f.w.goType(cl.Type)
 	if t.k != kStruct && f.u.extLits {
 		return f.extComposite(cl, en, k)
+	}
+	if t.k != kStruct && f.u.outside {
+		return f.foreignLit(cl, en, k)
 	}
 	if t.k != kStruct {
 		return k(val{"tt", ty{k: kUnknown}}, en) // a value of a type outside the translation
